@@ -4,7 +4,8 @@ patch="$1"; shift
 cd /repo || exit 2
 if [ -n "$(git status --porcelain --untracked-files=no)" ]; then echo "/repo not clean"; exit 2; fi
 git apply "$patch" || { echo "patch does not apply"; exit 2; }
-trap 'git -C /repo checkout -- . ' EXIT
+rm -rf /tmp/evidence_backup && cp -r /verif/evidence /tmp/evidence_backup
+trap 'git -C /repo checkout -- . ; rm -rf /verif/evidence; cp -r /tmp/evidence_backup /verif/evidence' EXIT
 cd /verif
 for p in "$@"; do
   VERIF_TIER=${TIER:-quick} ./check $p --tier ${TIER:-quick} > /tmp/seedtest_$p.out 2>&1
